@@ -129,6 +129,84 @@ def _effect_free(h):
     return True
 
 
+def _size(stmts):
+    return sum(1 for s_ in stmts for n in ast.walk(s_) if isinstance(n, ast.stmt))
+
+
+def _decidable_test(test, name):
+    """test reads nothing but `name` and constants"""
+    ok = False
+    for n in ast.walk(test):
+        if isinstance(n, ast.Name):
+            if n.id != name:
+                return False
+            ok = True
+        elif isinstance(n, (ast.Call, ast.Attribute, ast.Subscript, ast.NamedExpr)):
+            return False
+    return ok
+
+
+def _decide(test, name, value):
+    """Truth of `test` when `name` holds the constant `value`; None when not decided."""
+    def ev(e):
+        if isinstance(e, ast.Name) and e.id == name:
+            return ("v", value)
+        if isinstance(e, ast.Constant):
+            return ("v", e.value)
+        if isinstance(e, ast.UnaryOp) and isinstance(e.op, ast.Not):
+            x = ev(e.operand)
+            return None if x is None else ("v", not x[1])
+        if isinstance(e, ast.Compare) and len(e.ops) == 1:
+            l, r = ev(e.left), ev(e.comparators[0])
+            if l is None or r is None:
+                return None
+            a, b = l[1], r[1]
+            op = e.ops[0]
+            try:
+                if isinstance(op, ast.Is):
+                    return ("v", a is b if (a is None or b is None or isinstance(a, bool) or isinstance(b, bool)) else a == b)
+                if isinstance(op, ast.IsNot):
+                    return ("v", not (a is b if (a is None or b is None or isinstance(a, bool) or isinstance(b, bool)) else a == b))
+                if isinstance(op, ast.Eq):
+                    return ("v", a == b)
+                if isinstance(op, ast.NotEq):
+                    return ("v", a != b)
+            except Exception:
+                return None
+            return None
+        if isinstance(e, ast.BoolOp):
+            vals = [ev(x) for x in e.values]
+            if any(x is None for x in vals):
+                return None
+            if isinstance(e.op, ast.And):
+                return ("v", all(bool(x[1]) for x in vals))
+            return ("v", any(bool(x[1]) for x in vals))
+        return None
+    r = ev(test)
+    return None if r is None else bool(r[1])
+
+
+def _single_early_use(body, p):
+    """Parameter p is read exactly once, in a statement before which the helper executes nothing that has an effect."""
+    uses = [n for s_ in body for n in ast.walk(s_) if isinstance(n, ast.Name) and n.id == p]
+    if len(uses) != 1 or not isinstance(uses[0].ctx, ast.Load):
+        return False
+    for s_ in body:
+        inside = any(n is uses[0] for n in ast.walk(s_))
+        if inside:
+            # not under a loop / comprehension / lambda / conditional inside that statement
+            if isinstance(s_, (ast.For, ast.While, ast.If, ast.Try, ast.With)):
+                return isinstance(s_, ast.If) and any(n is uses[0] for n in ast.walk(s_.test)) and not isinstance(s_.test, ast.BoolOp)
+            for n in ast.walk(s_):
+                if isinstance(n, (ast.ListComp, ast.GeneratorExp, ast.SetComp, ast.DictComp, ast.Lambda, ast.IfExp, ast.BoolOp)) \
+                        and any(x is uses[0] for x in ast.walk(n)):
+                    return False
+            return True
+        if not isinstance(s_, (ast.Assign, ast.AnnAssign, ast.Expr, ast.Pass)) or any(isinstance(n, (ast.Call, ast.Await)) for n in ast.walk(s_)):
+            return False
+    return False
+
+
 class _Rewrite(ast.NodeTransformer):
     def __init__(self, subst, rename):
         self.subst = subst
@@ -185,6 +263,9 @@ class Inliner:
         if isinstance(st, ast.Assign) and isinstance(st.value, ast.Call):
             if len(st.targets) == 1 and isinstance(st.targets[0], ast.Name):
                 return st.value, "assign"
+            if len(st.targets) == 1 and isinstance(st.targets[0], (ast.Tuple, ast.List)) and all(
+                    isinstance(t, ast.Name) for t in st.targets[0].elts):
+                return st.value, "tuple"
             return st.value, "value"
         if isinstance(st, ast.AnnAssign) and isinstance(st.value, ast.Call) and isinstance(st.target, ast.Name):
             return st.value, "assign"
@@ -201,13 +282,72 @@ class Inliner:
         return None, None
 
     def run(self, func):
+        self._comprehensions(func)
         self._expressions(func)
         self._block_owner(func.node, func, 0)
         return self.count
 
-    def _expressions(self, func):
-        """Helpers that are a single `return <expression>` are substituted wherever they are called (any expression position)."""
+    def _comprehensions(self, func):
+        """`return [helper(a) for a in xs]` / `ys = [helper(a) for a in xs]` with an unknown helper becomes an explicit loop
+        (`item = helper(a); acc.append(item)`), so that the helper can be inlined per item."""
         me = self
+
+        def has_helper(e):
+            return any(isinstance(c, ast.Call) and me.resolve(c, func) is not None for c in ast.walk(e))
+
+        def block(stmts):
+            out = []
+            for st in stmts:
+                for owner, fld, lst in _stmt_lists(st):
+                    if not isinstance(st, (ast.FunctionDef, ast.AsyncFunctionDef, ast.ClassDef)):
+                        setattr(owner, fld, block(lst))
+                comp = None
+                if isinstance(st, ast.Return) and isinstance(st.value, ast.ListComp):
+                    comp = st.value
+                elif isinstance(st, ast.Assign) and len(st.targets) == 1 and isinstance(st.targets[0], ast.Name) and isinstance(st.value, ast.ListComp):
+                    comp = st.value
+                if comp is None or len(comp.generators) != 1 or comp.generators[0].is_async or not isinstance(comp.elt, ast.Call) \
+                        or me.resolve(comp.elt, func) is None:
+                    out.append(st)
+                    continue
+                me.seq += 1
+                gen = comp.generators[0]
+                acc = st.targets[0].id if isinstance(st, ast.Assign) else "items_%d" % me.seq
+                item = "item_%d" % me.seq
+                body = [ast.Assign(targets=[ast.Name(id=item, ctx=ast.Store())], value=comp.elt),
+                        ast.Expr(value=ast.Call(func=ast.Attribute(value=ast.Name(id=acc, ctx=ast.Load()), attr="append", ctx=ast.Load()),
+                                                args=[ast.Name(id=item, ctx=ast.Load())], keywords=[]))]
+                for cond in reversed(gen.ifs):
+                    body = [ast.If(test=cond, body=body, orelse=[])]
+                new = [ast.Assign(targets=[ast.Name(id=acc, ctx=ast.Store())], value=ast.List(elts=[], ctx=ast.Load())),
+                       ast.For(target=gen.target, iter=gen.iter, body=body, orelse=[])]
+                if isinstance(st, ast.Return):
+                    new.append(ast.Return(value=ast.Name(id=acc, ctx=ast.Load())))
+                for n_ in new:
+                    for x in ast.walk(n_):
+                        if isinstance(x, (ast.stmt, ast.expr)) and not hasattr(x, "lineno"):
+                            x.lineno, x.col_offset = st.lineno, st.col_offset
+                            x.end_lineno, x.end_col_offset = getattr(st, "end_lineno", st.lineno), getattr(st, "end_col_offset", 0)
+                out.extend(new)
+            return out
+        func.node.body = block(func.node.body)
+        relink(func.node, getattr(func.node, "_parent", None))
+
+    def _expressions(self, func):
+        self.expressions_in(func.node, func, func.module)
+
+    def expressions_in(self, root, func, module):
+        """Helpers that are a single `return <expression>` are substituted wherever they are called (any expression position).
+        `func` is the enclosing function, or None for a class-level / module-level expression (then `module` resolves names)."""
+        me = self
+        rctx = func if func is not None else module
+
+        class _F:  # stand-in for "no enclosing function"
+            node = None
+            cls = None
+            params = []
+            decorators = []
+        func = func if func is not None else _F()
 
         class T(ast.NodeTransformer):
             def visit_FunctionDef(self, n):
@@ -220,7 +360,7 @@ class Inliner:
 
             def visit_Call(self, c):
                 self.generic_visit(c)
-                h = me.resolve(c, func)
+                h = me.resolve(c, rctx)
                 if h is None or h is func or not _inlinable(h):
                     return c
                 body = list(h.node.body)
@@ -272,7 +412,7 @@ class Inliner:
                 me.count += 1
                 me.inlined[h.qualname] = me.inlined.get(h.qualname, 0) + 1
                 return new
-        T().visit(func.node)
+        return T().visit(root)
 
     def _block_owner(self, owner, func, depth):
         for o, fld, lst in _stmt_lists(owner):
@@ -280,11 +420,21 @@ class Inliner:
 
     def _block(self, stmts, func, depth):
         out = []
-        for st in stmts:
+        skip = None
+        for i, st in enumerate(stmts):
+            if st is skip:
+                continue
             call, mode = self._site(st)
             h = self.resolve(call, func) if call is not None and depth < self.max_depth else None
             if h is not None and h is not func and _inlinable(h) and not (mode == "expr" and _effect_free(h)):
-                rep = self._expand(st, call, mode, h, func)
+                follow = None
+                if mode == "assign" and i + 1 < len(stmts) and isinstance(stmts[i + 1], ast.If):
+                    tgt = st.targets[0] if isinstance(st, ast.Assign) else st.target
+                    if _decidable_test(stmts[i + 1].test, tgt.id):
+                        follow = stmts[i + 1]
+                rep = self._expand(st, call, mode, h, func, follow)
+                if rep is not None and follow is not None:
+                    skip = follow
                 if rep is not None:
                     self.count += 1
                     self.inlined[h.qualname] = self.inlined.get(h.qualname, 0) + 1
@@ -326,7 +476,7 @@ class Inliner:
             p = getattr(p, "_parent", None)
         return False
 
-    def _expand(self, st, call, mode, h, func):
+    def _expand(self, st, call, mode, h, func, follow=None):
         hn = h.node
         params = list(h.params)
         is_method = h.cls is not None and "staticmethod" not in h.decorators
@@ -372,6 +522,8 @@ class Inliner:
                 subst[p] = a
             elif p not in stored and isinstance(a, ast.Attribute) and isinstance(a.value, ast.Name) and a.value.id == caller_self:
                 subst[p] = a  # self.x passed through (helpers that rebind it are excluded by `stored`)
+            elif p not in stored and _single_early_use(body, p):
+                subst[p] = a  # used once, before anything else of the helper can have an effect: evaluated at the same point
             elif isinstance(a, ast.Name) and not self._loaded_after(func, st, a.id):
                 # the helper rebinds its parameter, and the caller never reads the variable it passed again: let the copy work on it
                 if a.id != p:
@@ -399,27 +551,61 @@ class Inliner:
                 new = new + [ast.Return(value=ast.Constant(value=None))]
             rep = pre + new
         else:
+            tnames = None
             if mode == "assign":
                 tgt = st.targets[0] if isinstance(st, ast.Assign) else st.target
                 res = tgt.id
+            elif mode == "tuple":
+                tnames = [t.id for t in st.targets[0].elts]
+                res = "%s_ret" % tag
             elif mode in ("value", "test", "iter"):
                 res = "%s_ret" % tag
+            # the statement that tests the result right away (`if helper():` / `x = helper()` + `if x is None:`): a return of a
+            # constant decides that test, so the decided branch is executed at the return site (keeps "this exit <=> that outcome")
+            tested = st if mode == "test" else follow
+            tvar = res
+            thread = tested is not None and _size(tested.body) + _size(tested.orelse) <= 12
+            after_label = label + "a"
+            nthreaded = [0]
+
+            def leave_to(lab):
+                lv = InlineLeave()
+                lv.label = lab
+                return lv
 
             def make(v):
                 outl = []
-                if res is not None:
-                    outl.append(ast.Assign(targets=[ast.Name(id=res, ctx=ast.Store())], value=v if v is not None else ast.Constant(value=None)))
+                val = v if v is not None else ast.Constant(value=None)
+                if tnames is not None and isinstance(val, ast.Tuple) and len(val.elts) == len(tnames) and not (
+                        _names(val) & set(tnames)):
+                    for nm, ev in zip(tnames, val.elts):
+                        outl.append(ast.Assign(targets=[ast.Name(id=nm, ctx=ast.Store())], value=ev))
+                elif tnames is not None:
+                    outl.append(ast.Assign(targets=[ast.Name(id=res, ctx=ast.Store())], value=val))
+                    outl.append(ast.Assign(targets=[ast.Tuple(elts=[ast.Name(id=nm, ctx=ast.Store()) for nm in tnames], ctx=ast.Store())],
+                                           value=ast.Name(id=res, ctx=ast.Load())))
+                elif res is not None:
+                    outl.append(ast.Assign(targets=[ast.Name(id=res, ctx=ast.Store())], value=val))
                 elif v is not None and any(isinstance(x, ast.Call) for x in ast.walk(v)):
                     outl.append(ast.Expr(value=v))
+                if thread and isinstance(val, ast.Constant) and nthreaded[0] < 8:
+                    verdict = _decide(tested.test, tvar, val.value)
+                    if verdict is not None:
+                        nthreaded[0] += 1
+                        outl.extend(clone(tested.body if verdict else tested.orelse))
+                        outl.append(leave_to(after_label))
+                        return outl
                 outl.append(leave())
                 return outl
             new = _replace_returns(body, make)
-            if res is not None and _falls_through(body):
-                new = new + [ast.Assign(targets=[ast.Name(id=res, ctx=ast.Store())], value=ast.Constant(value=None))]
+            if res is not None and tnames is None and _falls_through(body):
+                new = new + make(None)[:-1]
             blk = InlineBlock(body=new or [ast.Pass()])
             blk.label = label
             blk.helper = h.qualname
             rep = pre + [blk]
+            if mode == "tuple":
+                pass  # the targets were assigned at every return site
             if mode == "value":
                 st.value = ast.Name(id=res, ctx=ast.Load())
                 rep.append(st)
@@ -433,7 +619,16 @@ class Inliner:
                     st.test.operand = nm
                 else:
                     st.test = nm
+                self._block_owner(st, func, 0)
                 rep.append(st)
+            if follow is not None:
+                self._block_owner(follow, func, 0)
+                rep.append(follow)
+            if tested is not None and nthreaded[0]:
+                outer = InlineBlock(body=rep[len(pre):])
+                outer.label = after_label
+                outer.helper = h.qualname
+                rep = pre + [outer]
         anchor = int(getattr(st, "_inl_anchor", st.lineno))
         for r in rep:
             for n in ast.walk(r):
@@ -638,3 +833,267 @@ def propagate_paths(func):
     if n_repl:
         relink(node, getattr(node, "_parent", None))
     return n_repl
+
+
+# ------------------------------------------------------------------------------------------------ module constants
+def _immutable_literal(e, consts):
+    if isinstance(e, ast.Constant):
+        return True
+    if isinstance(e, ast.Tuple):
+        return all(_immutable_literal(x, consts) or _class_ref(x) for x in e.elts)
+    if isinstance(e, ast.Name):
+        return e.id in consts
+    if isinstance(e, ast.BinOp) and isinstance(e.op, (ast.Add, ast.Mod, ast.BitOr)):
+        return _immutable_literal(e.left, consts) and _immutable_literal(e.right, consts)
+    if isinstance(e, ast.Attribute) and isinstance(e.value, ast.Name) and e.value.id == "re" and e.attr.isupper():
+        return True  # re.MULTILINE ...
+    if isinstance(e, ast.Call) and isinstance(e.func, ast.Attribute) and isinstance(e.func.value, ast.Name) and e.func.value.id == "re" \
+            and e.func.attr == "compile" and not e.keywords and e.args and all(_immutable_literal(a, consts) for a in e.args):
+        return True
+    return False
+
+
+def _class_ref(e):
+    if isinstance(e, ast.Name):
+        return e.id[:1].isupper()
+    return isinstance(e, ast.Attribute) and isinstance(e.value, ast.Name) and e.attr[:1].isupper()
+
+
+def inline_constants(module, known_names):
+    """Module-level names bound once to an immutable literal (string, bytes, number, tuple of those or of class references, a pattern
+    compiled from constants), not known to the rule set, are replaced by their value wherever they are read.  `f(*CONST)` with a
+    literal tuple becomes positional arguments.  Returns the number of replaced reads."""
+    tree = module.tree
+    bound = {}
+    for st in tree.body:
+        tg = None
+        if isinstance(st, ast.Assign) and len(st.targets) == 1 and isinstance(st.targets[0], ast.Name):
+            tg, val = st.targets[0].id, st.value
+        elif isinstance(st, ast.AnnAssign) and isinstance(st.target, ast.Name) and st.value is not None:
+            tg, val = st.target.id, st.value
+        if tg is not None:
+            bound.setdefault(tg, []).append(val)
+    # any other store (augmented assignment, global rebinding in a function, for target ...) disqualifies the name
+    stores = {}
+    for n in ast.walk(tree):
+        if isinstance(n, ast.Name) and isinstance(n.ctx, (ast.Store, ast.Del)):
+            stores[n.id] = stores.get(n.id, 0) + 1
+        if isinstance(n, (ast.FunctionDef, ast.ClassDef)):
+            stores[n.name] = stores.get(n.name, 0) + 1
+        if isinstance(n, ast.arg):
+            stores[n.arg] = stores.get(n.arg, 0) + 1
+        if isinstance(n, ast.alias):
+            nm = (n.asname or n.name).split(".")[0]
+            stores[nm] = stores.get(nm, 0) + 1
+    consts = {}
+    changed = True
+    while changed:
+        changed = False
+        for nm, vals in bound.items():
+            if nm in consts or nm in known_names or len(vals) != 1 or stores.get(nm, 0) != 1:
+                continue
+            if nm.startswith("__") and nm.endswith("__"):
+                continue
+            if _immutable_literal(vals[0], consts):
+                consts[nm] = vals[0]
+                changed = True
+    if not consts:
+        return 0
+    count = [0]
+
+    class T(ast.NodeTransformer):
+        def visit_Name(self, n):
+            if isinstance(n.ctx, ast.Load) and n.id in consts:
+                new = clone(consts[n.id])
+                new = T().visit(new)  # constants defined from other constants
+                for x in ast.walk(new):
+                    if isinstance(x, ast.expr):
+                        x.lineno, x.col_offset = n.lineno, n.col_offset
+                        x.end_lineno, x.end_col_offset = getattr(n, "end_lineno", n.lineno), getattr(n, "end_col_offset", n.col_offset)
+                count[0] += 1
+                return new
+            return n
+
+        def visit_Call(self, c):
+            self.generic_visit(c)
+            if any(isinstance(a, ast.Starred) and isinstance(a.value, ast.Tuple) for a in c.args):
+                args = []
+                for a in c.args:
+                    if isinstance(a, ast.Starred) and isinstance(a.value, ast.Tuple):
+                        args.extend(a.value.elts)
+                    else:
+                        args.append(a)
+                c.args = args
+            return c
+    for st in tree.body:
+        if isinstance(st, (ast.FunctionDef, ast.ClassDef)):
+            T().visit(st)
+        elif isinstance(st, (ast.Assign, ast.AnnAssign)) and not (
+                isinstance(st, ast.Assign) and isinstance(st.targets[0], ast.Name) and st.targets[0].id in consts):
+            if st.value is not None:
+                st.value = T().visit(st.value)
+    if count[0]:
+        relink(tree, None)
+    return count[0]
+
+
+# ------------------------------------------------------------------------------------------------ walrus
+def hoist_walrus(func_node):
+    """`if (m := E) is not None:` -> `m = E` followed by `if m is not None:` when the assignment expression is the first thing the
+    test evaluates (so hoisting does not change when, or whether, E is evaluated).  Loop tests are left alone."""
+    count = [0]
+
+    def first_evaluated(test):
+        """path (list of (parent, field, index)) to a NamedExpr that is evaluated first and unconditionally"""
+        if isinstance(test, ast.NamedExpr):
+            return test
+        if isinstance(test, ast.UnaryOp):
+            return first_evaluated(test.operand)
+        if isinstance(test, ast.Compare):
+            return first_evaluated(test.left)
+        if isinstance(test, ast.BoolOp):
+            return first_evaluated(test.values[0])
+        if isinstance(test, ast.Call) and isinstance(test.func, ast.Attribute):
+            return first_evaluated(test.func.value)
+        return None
+
+    def replace(root, old, new):
+        for par in ast.walk(root):
+            for fld, val in ast.iter_fields(par):
+                if val is old:
+                    setattr(par, fld, new)
+                    return True
+                if isinstance(val, list):
+                    for i, x in enumerate(val):
+                        if x is old:
+                            val[i] = new
+                            return True
+        return False
+
+    def block(stmts):
+        out = []
+        for st in stmts:
+            for owner, fld, lst in _stmt_lists(st):
+                if not isinstance(st, (ast.FunctionDef, ast.AsyncFunctionDef, ast.ClassDef)):
+                    setattr(owner, fld, block(lst))
+            if isinstance(st, ast.If):
+                ne = first_evaluated(st.test)
+                if ne is not None and isinstance(ne.target, ast.Name):
+                    asg = ast.copy_location(ast.Assign(targets=[ast.Name(id=ne.target.id, ctx=ast.Store())], value=ne.value), st)
+                    nm = ast.copy_location(ast.Name(id=ne.target.id, ctx=ast.Load()), ne)
+                    if st.test is ne:
+                        st.test = nm
+                    else:
+                        replace(st.test, ne, nm)
+                    out.append(asg)
+                    count[0] += 1
+            out.append(st)
+        return out
+    func_node.body = block(func_node.body)
+    if count[0]:
+        relink(func_node, getattr(func_node, "_parent", None))
+    return count[0]
+
+
+# ------------------------------------------------------------------------------------------------ dispatch tables
+def devirtualise(func_node):
+    """A local dispatch table used once
+
+        table = {"a": self.on_a, "b": self.on_b}
+        handler = table.get(key)            # or table[key], or table.get(key, self.other)
+        if handler is None: <refusal>       # optional
+        return handler(x, y)                # or  v = handler(x, y)  /  handler(x, y)
+
+    becomes the if/elif chain it abbreviates (`if key == "a": return self.on_a(x, y) elif ... else: <refusal>`), which the other
+    passes and the rules understand.  Anything that does not have exactly this shape is left alone."""
+    count = [0]
+
+    def uses(name, nodes):
+        return [n for st in nodes for n in ast.walk(st) if isinstance(n, ast.Name) and n.id == name]
+
+    def block(stmts):
+        for st in stmts:
+            for owner, fld, lst in _stmt_lists(st):
+                if not isinstance(st, (ast.FunctionDef, ast.AsyncFunctionDef, ast.ClassDef)):
+                    setattr(owner, fld, block(lst))
+        i = 0
+        out = list(stmts)
+        while i < len(out):
+            st = out[i]
+            ok = isinstance(st, ast.Assign) and len(st.targets) == 1 and isinstance(st.targets[0], ast.Name) and isinstance(st.value, ast.Dict) \
+                and st.value.keys and all(isinstance(k, ast.Constant) for k in st.value.keys) \
+                and all(isinstance(v, (ast.Attribute, ast.Name)) for v in st.value.values)
+            if not ok:
+                i += 1
+                continue
+            table = st.targets[0].id
+            rest = out[i + 1:]
+            if len(uses(table, rest)) != 1 or not rest:
+                i += 1
+                continue
+            sel = rest[0]
+            # handler = table.get(K[, default]) | table[K]
+            hname = key = default = None
+            subscript = False
+            if isinstance(sel, ast.Assign) and len(sel.targets) == 1 and isinstance(sel.targets[0], ast.Name):
+                v = sel.value
+                if isinstance(v, ast.Call) and isinstance(v.func, ast.Attribute) and v.func.attr == "get" and isinstance(v.func.value, ast.Name) \
+                        and v.func.value.id == table and 1 <= len(v.args) <= 2 and not v.keywords:
+                    hname, key = sel.targets[0].id, v.args[0]
+                    default = v.args[1] if len(v.args) == 2 else None
+                elif isinstance(v, ast.Subscript) and isinstance(v.value, ast.Name) and v.value.id == table:
+                    hname, key, subscript = sel.targets[0].id, v.slice, True
+            if hname is None or not isinstance(key, (ast.Name, ast.Constant)):
+                i += 1
+                continue
+            tail = rest[1:]
+            refusal = None
+            if tail and isinstance(tail[0], ast.If) and not tail[0].orelse:
+                t = tail[0].test
+                is_none = (isinstance(t, ast.Compare) and len(t.ops) == 1 and isinstance(t.ops[0], ast.Is) and isinstance(t.left, ast.Name)
+                           and t.left.id == hname and isinstance(t.comparators[0], ast.Constant) and t.comparators[0].value is None) or (
+                    isinstance(t, ast.UnaryOp) and isinstance(t.op, ast.Not) and isinstance(t.operand, ast.Name) and t.operand.id == hname)
+                if is_none and not _falls_through(tail[0].body):
+                    refusal = tail[0].body
+                    tail = tail[1:]
+            if not tail:
+                i += 1
+                continue
+            use = tail[0]
+            calls = [c for c in ast.walk(use) if isinstance(c, ast.Call) and isinstance(c.func, ast.Name) and c.func.id == hname]
+            if len(calls) != 1 or len(uses(hname, tail)) != 1 or isinstance(use, (ast.For, ast.While, ast.If, ast.Try, ast.With)):
+                i += 1
+                continue
+
+            def variant(target):
+                u = clone(use)
+                for c in ast.walk(u):
+                    if isinstance(c, ast.Call) and isinstance(c.func, ast.Name) and c.func.id == hname:
+                        c.func = clone(target)
+                return u
+            if refusal is None:
+                if default is not None:
+                    other = [variant(default)]
+                else:
+                    exc = "KeyError" if subscript else "TypeError"
+                    other = [ast.Raise(exc=ast.Call(func=ast.Name(id=exc, ctx=ast.Load()), args=[], keywords=[]), cause=None)]
+            else:
+                other = list(refusal) if default is None else [variant(default)]
+            chain = other
+            for k, v in reversed(list(zip(st.value.keys, st.value.values))):
+                test = ast.Compare(left=clone(key), ops=[ast.Eq()], comparators=[clone(k)])
+                chain = [ast.If(test=test, body=[variant(v)], orelse=chain)]
+            for n in ast.walk(chain[0]):
+                if isinstance(n, (ast.stmt, ast.expr)) and not hasattr(n, "lineno"):
+                    n.lineno, n.col_offset = use.lineno, use.col_offset
+                    n.end_lineno, n.end_col_offset = getattr(use, "end_lineno", use.lineno), getattr(use, "end_col_offset", 0)
+            consumed = 2 + (1 if refusal is not None else 0) + 1
+            out[i:i + consumed] = chain
+            count[0] += 1
+            i += 1
+        return out
+    func_node.body = block(func_node.body)
+    if count[0]:
+        relink(func_node, getattr(func_node, "_parent", None))
+    return count[0]
+
